@@ -10,7 +10,7 @@ TRUSTED_BASE = [
 ]
 ASSUMPTIONS = [
     "input bytes are < 256 (C++ char); positions are modelled as suffixes of the immutable input",
-    "the driver is compiled with -fno-sanitize=alignment because of finding F35 (misaligned multi-byte loads in GetValue)",
+    "drivers run under ASan+UBSan including the alignment check (finding F35, misaligned multi-byte loads in GetValue, was repaired by fix: commit ebf776b)",
 ]
 
 
